@@ -47,7 +47,9 @@ func ScanBuf(br *bufio.Reader) (imageType ImageType, err error) {
 // identified.
 func ReadAt(r io.ReaderAt) (imageType ImageType, err error) {
 	buf := [searchHeaderLength]byte{}
-	if _, err = r.ReadAt(buf[:], 0); err != nil {
+	// A ReaderAt may report io.EOF together with a read that reaches the end
+	// of the data.
+	if n, err := r.ReadAt(buf[:], 0); err != nil && !(err == io.EOF && n == len(buf)) {
 		return ImageUnknown, err
 	}
 
